@@ -2,6 +2,7 @@ import OpdaProofs.Audit
 import OpdaProofs.BandMore
 import OpdaProofs.BandCor
 import OpdaProofs.BandConf
+import OpdaProofs.LdWiden
 import OpdaProofs.Small
 import OpdaProofs.ExtInst
 /-!
@@ -11,6 +12,16 @@ The model of `confidence_bands` is `Opda.Band.bandObs` (the code's `diff(levels,
 sorted extended sample `[a] ++ ys ++ [b]`) fed to the C03 constructor model `Opda.Emp.support`.  The level tables are
 parameters: the correspondence check computes them from the documented construction (dkw/ks: `clip(i/n ∓ ε)`; ld: the
 simulated critical value pushed through the public beta-interval helpers) and compares the code's bands with the model.
+
+"Raising the confidence (same seed) never narrows the band" is a theorem for three of the four methods: dkw
+(`dkw_band_widens_with_confidence`, `dkw_band_widens_up_to_confidence_one`), ld_equal_tailed
+(`ld_equal_tailed_band_widens_with_confidence`) and ld_highest_density (`ld_highest_density_band_widens_with_confidence`,
+`n ≥ 2`).  For ld the same seed gives the same simulated statistics `ts`, and the clause is the chain
+`np_quantile_monotone_in_level` (numpy's linear rule, modelled by `Opda.LdWiden.npQuantile`) →
+`equal_tailed_nested_in_coverage` with `beta_quantile_spec_and_monotone` / `highest_density_nested_in_coverage` →
+`band_widens_of_levelwise_widening`.  What stays compared for ld: that the code's tables are the model tables
+`ldLo`/`ldHi` at `np.quantile(ts, confidence)` (numpy's rule, scipy's `beta.ppf`, the code's highest-density root search
+against `hdLoEnd`/`hdHiEnd`, for which `highest_density_ends_are_level_set` gives the characterisation).  ks: compared.
 -/
 namespace Opda.Props.C02
 open Opda.Emp Opda.Band Opda.Wire
@@ -169,6 +180,144 @@ theorem dkw_band_widens_up_to_confidence_one (a b : E) (ys : List E) (t : E) (hn
 example : ([Ext.fin 2, Ext.fin 2, Ext.fin 5] : List Ext) ≠ [] ∧ (0 : ℝ) ≤ 1/2 ∧ (1/2 : ℝ) ≤ 19/20 ∧ (19/20 : ℝ) < 1
     ∧ (19/20 : ℝ) ≤ 1 ∧ (1 : ℝ) ≤ 1 := by
   refine ⟨by simp, by norm_num, by norm_num, by norm_num, by norm_num, le_rfl⟩
+
+/-! ### ld_equal_tailed / ld_highest_density: raising the confidence (same seed) never narrows the band
+
+`_ld_band_weights(n, confidence, kind, generator)`: the simulated statistics `ts` depend on `n`, `kind` and the generator
+state only, so with the same seed they are the same array for both confidences; `critical_value = np.quantile(ts,
+confidence)`; tables `clip([0] ++ lo_k(v))`, `clip(hi_k(v) ++ [1])`, `(lo_k(v), hi_k(v)) = interval(k, n+1−k, v)`,
+`k = 1..n` (`Opda.LdWiden.ldLo` / `ldHi`).  In the statements `ts` is the *sorted* array (numpy sorts it). -/
+
+open Opda.LdWiden in
+/-- **`np.quantile(ts, ·)` is non-decreasing** (numpy's default linear rule `s[j] + (h−j)(s[min(j+1,N−1)] − s[j])`,
+`h = (N−1)c`, `j = ⌊h⌋`, on a sorted non-empty sample): `0 ≤ c ≤ c' ≤ 1 ⇒ quantile(c) ≤ quantile(c')`. -/
+theorem np_quantile_monotone_in_level [FloorRing α] (s : List α) (hsorted : s.Pairwise (· ≤ ·)) (hne : s ≠ []) {c c' : α}
+    (hc0 : 0 ≤ c) (hcc : c ≤ c') (hc1 : c' ≤ 1) : npQuantile s c ≤ npQuantile s c' :=
+  npQuantile_mono s hsorted hne hc0 hcc hc1
+
+open Opda.LdWiden in
+/-- level 0 is the smallest value, level 1 the largest, every level in `[0,1]` lies between them -/
+theorem np_quantile_ends [FloorRing α] (s : List α) (hsorted : s.Pairwise (· ≤ ·)) (hne : s ≠ []) {c : α}
+    (hc0 : 0 ≤ c) (hc1 : c ≤ 1) :
+    npQuantile s 0 = s.getD 0 0 ∧ npQuantile s 1 = s.getD (s.length - 1) 0
+      ∧ s.getD 0 0 ≤ npQuantile s c ∧ npQuantile s c ≤ s.getD (s.length - 1) 0 :=
+  ⟨npQuantile_zero s, npQuantile_one s hne, npQuantile_mem s hsorted hne hc0 hc1⟩
+
+/-- **level-wise widening ⇒ band widening** (any four tables on the same sample and bounds): lower table decreasing and
+upper table increasing at every index ⇒ `lo' ≤ lo` and `hi ≤ hi'` at every `t`. -/
+theorem band_widens_of_levelwise_widening (a b : E) (ys : List E) (lo lo' hi hi' : List α) (t : E)
+    (hlo : lo.length = ys.length + 1) (hlo' : lo'.length = ys.length + 1)
+    (hhi : hi.length = ys.length + 1) (hhi' : hi'.length = ys.length + 1)
+    (hL : ∀ i, lo'.getD i 0 ≤ lo.getD i 0) (hU : ∀ i, hi.getD i 0 ≤ hi'.getD i 0) :
+    cdf (support ⊥ ⊤ a b (bandObs a b ys lo')) t ≤ cdf (support ⊥ ⊤ a b (bandObs a b ys lo)) t
+      ∧ cdf (support ⊥ ⊤ a b (bandObs a b ys hi)) t ≤ cdf (support ⊥ ⊤ a b (bandObs a b ys hi')) t :=
+  Opda.LdWiden.band_widens_of_levels a b ys lo lo' hi hi' t hlo hlo' hhi hhi' hL hU
+
+/-- **equal-tailed intervals `[Q((1−c)/2), Q((1+c)/2)]` are nested in the coverage** for every quantile function `Q`
+non-decreasing on `[0,1]` -/
+theorem equal_tailed_nested_in_coverage {β : Type} [Preorder β] (Q : α → β) (hQ : MonotoneOn Q (Set.Icc 0 1)) {c c' : α}
+    (hc0 : 0 ≤ c) (hcc : c ≤ c') (hc1 : c' ≤ 1) :
+    Q ((1 - c') / 2) ≤ Q ((1 - c) / 2) ∧ Q ((1 + c) / 2) ≤ Q ((1 + c') / 2) :=
+  Opda.LdWiden.et_nested_of_monotoneOn Q hQ hc0 hcc hc1
+
+open Opda.LdWiden Opda.BetaCheck in
+/-- **the Beta(a,b) quantile function** `betaQuantile a b` (the inverse on `[0,1]` of the distribution function `G a b`)
+exists, is unique and is non-decreasing on `[0,1]` — the hypothesis of `equal_tailed_nested_in_coverage` holds for it. -/
+theorem beta_quantile_spec_and_monotone (a b : ℕ) (ha : 0 < a) (hb : 0 < b) :
+    (∀ p ∈ Set.Icc (0 : ℝ) 1, betaQuantile a b p ∈ Set.Icc (0 : ℝ) 1 ∧ G a b (betaQuantile a b p) = p)
+      ∧ (∀ p, ∀ x ∈ Set.Icc (0 : ℝ) 1, G a b x = p → betaQuantile a b p = x)
+      ∧ MonotoneOn (betaQuantile a b) (Set.Icc 0 1) :=
+  ⟨fun _ hp => betaQuantile_spec a b ha hb hp, fun _ _ hx h => betaQuantile_unique a b ha hb hx h,
+    betaQuantile_monotoneOn a b ha hb⟩
+
+open Opda.LdWiden in
+/-- **ld, any interval rule nested in the coverage**: sorted simulated statistics `ts ⊆ [0,1]` shared by both confidences,
+`0 ≤ c ≤ c' ≤ 1`, lower end points `l k` non-increasing and upper end points `u k` non-decreasing in the coverage on
+`[0,1]` (`k = 1..n`) ⇒ the band of `c'` contains the band of `c` at every `t`. -/
+theorem ld_band_widens_with_confidence_of_nested_intervals [FloorRing α] (l u : ℕ → α → α) (a b : E) (ys : List E) (t : E)
+    (ts : List α) (hsorted : ts.Pairwise (· ≤ ·)) (hne : ts ≠ []) (hunit : ∀ x ∈ ts, 0 ≤ x ∧ x ≤ 1)
+    (hl : ∀ k, 1 ≤ k → k ≤ ys.length → AntitoneOn (l k) (Set.Icc 0 1))
+    (hu : ∀ k, 1 ≤ k → k ≤ ys.length → MonotoneOn (u k) (Set.Icc 0 1))
+    {c c' : α} (hc0 : 0 ≤ c) (hcc : c ≤ c') (hc1 : c' ≤ 1) :
+    cdf (support ⊥ ⊤ a b (bandObs a b ys (ldLo l ys.length (npQuantile ts c')))) t
+        ≤ cdf (support ⊥ ⊤ a b (bandObs a b ys (ldLo l ys.length (npQuantile ts c)))) t
+      ∧ cdf (support ⊥ ⊤ a b (bandObs a b ys (ldHi u ys.length (npQuantile ts c)))) t
+        ≤ cdf (support ⊥ ⊤ a b (bandObs a b ys (ldHi u ys.length (npQuantile ts c')))) t :=
+  ld_band_widens l u a b ys t ts hsorted hne hunit hl hu hc0 hcc hc1
+
+open Opda.LdWiden in
+/-- **ld_equal_tailed, same seed: raising the confidence never narrows the band** — every sample (ties, any bounds), every
+`t`, every non-empty sorted list `ts ⊆ [0,1]` of simulated statistics, `0 ≤ c ≤ c' ≤ 1`; the tables are built from
+`etLoEnd k (n+1−k) v = betaQuantile k (n+1−k) ((1−v)/2)` and `etHiEnd … = betaQuantile … ((1+v)/2)` at the critical
+values `np.quantile(ts, c)`, `np.quantile(ts, c')`.  No hypothesis on the Beta quantiles is left. -/
+theorem ld_equal_tailed_band_widens_with_confidence (a b : E) (ys : List E) (t : E) (ts : List ℝ)
+    (hsorted : ts.Pairwise (· ≤ ·)) (hne : ts ≠ []) (hunit : ∀ x ∈ ts, 0 ≤ x ∧ x ≤ 1)
+    {c c' : ℝ} (hc0 : 0 ≤ c) (hcc : c ≤ c') (hc1 : c' ≤ 1) :
+    cdf (support ⊥ ⊤ a b (bandObs a b ys
+          (ldLo (fun k => etLoEnd k (ys.length + 1 - k)) ys.length (npQuantile ts c')))) t
+        ≤ cdf (support ⊥ ⊤ a b (bandObs a b ys
+          (ldLo (fun k => etLoEnd k (ys.length + 1 - k)) ys.length (npQuantile ts c)))) t
+      ∧ cdf (support ⊥ ⊤ a b (bandObs a b ys
+          (ldHi (fun k => etHiEnd k (ys.length + 1 - k)) ys.length (npQuantile ts c)))) t
+        ≤ cdf (support ⊥ ⊤ a b (bandObs a b ys
+          (ldHi (fun k => etHiEnd k (ys.length + 1 - k)) ys.length (npQuantile ts c')))) t :=
+  ld_et_band_widens a b ys t ts hsorted hne hunit hc0 hcc hc1
+
+open Opda.LdWiden Opda.BetaHdV in
+/-- **highest-density regions are nested in the coverage**: the region of coverage `v` of Beta(a,b) is
+`hdSet a b v = {x ∈ [0,1] | hdcov a b x ≤ v}` (`hdcov x` = mass of the density level set through `x`, C15); it is an
+interval (order-connected, by the V shape of `hdcov`), and its end points `hdLoEnd = inf`, `hdHiEnd = sup` are
+non-increasing / non-decreasing in `v` on `[0,1]`. -/
+theorem highest_density_nested_in_coverage (a b : ℕ) (hab : 2 < a + b) (ha : 0 < a) (hb : 0 < b) :
+    (∀ v, (hdSet a b v).OrdConnected) ∧ AntitoneOn (hdLoEnd a b) (Set.Icc 0 1) ∧ MonotoneOn (hdHiEnd a b) (Set.Icc 0 1) :=
+  ⟨hdSet_ordConnected a b hab ha hb, hdLoEnd_antitoneOn a b hab ha hb, hdHiEnd_monotoneOn a b hab ha hb⟩
+
+open Opda.LdWiden Opda.BetaHdV Opda.BetaCheck in
+/-- **those end points are the code's interval** (`a, b ≥ 2`): if `x` left of the mode has `hdcov a b x = v`, then
+`hdLoEnd a b v = x`, `hdHiEnd a b v = partnerR x` (the point of equal density across the mode, C15
+`hd_partner_equal_density`) and `G(partnerR x) − G(x) = v` — the interval with equal end densities and mass `v` that
+`beta_highest_density_interval` searches for. -/
+theorem highest_density_ends_are_level_set (a b : ℕ) (ha : 2 ≤ a) (hb : 2 ≤ b) {v x : ℝ}
+    (hx : x ∈ Set.Icc 0 (mode (a - 1) (b - 1))) (h : hdcov a b x = v) :
+    hdLoEnd a b v = x ∧ hdHiEnd a b v = partnerR (a - 1) (b - 1) x
+      ∧ G a b (partnerR (a - 1) (b - 1) x) - G a b x = v := hd_ends_eq_level_set a b ha hb hx h
+
+open Opda.LdWiden in
+/-- **ld_highest_density, same seed: raising the confidence never narrows the band** (`n ≥ 2`; Beta(1,1), `n = 1`, has no
+highest-density interval): as `ld_equal_tailed_band_widens_with_confidence` with the end points of the highest-density
+regions `hdLoEnd k (n+1−k) v`, `hdHiEnd k (n+1−k) v`.  No hypothesis on the intervals is left. -/
+theorem ld_highest_density_band_widens_with_confidence (a b : E) (ys : List E) (t : E) (ts : List ℝ) (hn : 2 ≤ ys.length)
+    (hsorted : ts.Pairwise (· ≤ ·)) (hne : ts ≠ []) (hunit : ∀ x ∈ ts, 0 ≤ x ∧ x ≤ 1)
+    {c c' : ℝ} (hc0 : 0 ≤ c) (hcc : c ≤ c') (hc1 : c' ≤ 1) :
+    cdf (support ⊥ ⊤ a b (bandObs a b ys
+          (ldLo (fun k => hdLoEnd k (ys.length + 1 - k)) ys.length (npQuantile ts c')))) t
+        ≤ cdf (support ⊥ ⊤ a b (bandObs a b ys
+          (ldLo (fun k => hdLoEnd k (ys.length + 1 - k)) ys.length (npQuantile ts c)))) t
+      ∧ cdf (support ⊥ ⊤ a b (bandObs a b ys
+          (ldHi (fun k => hdHiEnd k (ys.length + 1 - k)) ys.length (npQuantile ts c)))) t
+        ≤ cdf (support ⊥ ⊤ a b (bandObs a b ys
+          (ldHi (fun k => hdHiEnd k (ys.length + 1 - k)) ys.length (npQuantile ts c')))) t :=
+  ld_hd_band_widens a b ys t ts hn hsorted hne hunit hc0 hcc hc1
+
+/-- non-vacuity: a sorted list of statistics in `[0,1]`, two confidences, a sample of length ≥ 2; and the rule evaluated:
+`np.quantile([1, 2, 4], 0.75) = 3.0`, `np.quantile([1/4, 1/2, 3/4], 1/2) = 1/2`. -/
+example : ([1/4, 1/2, 3/4] : List ℝ).Pairwise (· ≤ ·) ∧ ([1/4, 1/2, 3/4] : List ℝ) ≠ []
+    ∧ (∀ x ∈ ([1/4, 1/2, 3/4] : List ℝ), 0 ≤ x ∧ x ≤ 1) ∧ (0 : ℝ) ≤ 1/2 ∧ (1/2 : ℝ) ≤ 19/20 ∧ (19/20 : ℝ) ≤ 1
+    ∧ 2 ≤ ([Ext.fin 2, Ext.fin 2, Ext.fin 5] : List Ext).length
+    ∧ Opda.LdWiden.npQuantile ([1, 2, 4] : List ℚ) (3/4) = 3
+    ∧ Opda.LdWiden.npQuantile ([1/4, 1/2, 3/4] : List ℚ) (1/2) = 1/2 := by
+  refine ⟨by norm_num [List.pairwise_cons], by simp, ?_, by norm_num, by norm_num, by norm_num, by simp, ?_, ?_⟩
+  · intro x hx
+    simp only [List.mem_cons, List.not_mem_nil, or_false] at hx
+    rcases hx with rfl | rfl | rfl <;> norm_num
+  · have h : ⌊((([1, 2, 4] : List ℚ).length : ℚ) - 1) * (3/4)⌋₊ = 1 := by
+      rw [Nat.floor_eq_iff (by norm_num)]; norm_num
+    unfold Opda.LdWiden.npQuantile Opda.LdWiden.npQuantileAt
+    rw [h]; norm_num
+  · have h : ⌊((([1/4, 1/2, 3/4] : List ℚ).length : ℚ) - 1) * (1/2)⌋₊ = 1 := by
+      rw [Nat.floor_eq_iff (by norm_num)]; norm_num
+    unfold Opda.LdWiden.npQuantile Opda.LdWiden.npQuantileAt
+    rw [h]; norm_num
 
 /-- the band theorem for the very terms the driver evaluates -/
 theorem band_cdf_driver (a b : Ext) (ys : List Ext) (levels : List Rat) (t : Ext)
